@@ -1719,7 +1719,7 @@ class SQLObject(with_metaclass(declarative.DeclarativeMeta, object)):
         self._connection._SO_delete(self)
         # obsolete only once the row is really gone
         self.sqlmeta._obsolete = True
-        self._connection.cache.expire(self.id, self.__class__)
+        self._connection.cache.purge(self.id, self.__class__)
 
         for func in post_funcs:
             func(self)
